@@ -5,7 +5,7 @@ CONSTANTS
   Kind = "nameaddr"
   Atoms <- AtomsQBig
   Prefix <- PfxQBig
-  MaxLen = 28
+  MaxLen = 29
   Cfgs <- CfgsNA8
   Junk = 34
   EmitOn = TRUE
